@@ -168,7 +168,7 @@ func c04TuplePool(rng *rand.Rand, arity, size int) [][]string {
 func (c04) Gen(rng *rand.Rand, tier string, idx int) Case {
 	var c Case
 	arity := []int{0, 1, 1, 2, 2, 2, 3}[rng.Intn(7)]
-	mode := []string{"enc", "enc", "agg", "agg", "cnt", "glb"}[idx%6]
+	mode := []string{"enc", "enc", "agg", "ses", "cnt", "glb", "agg"}[idx%7]
 	c.Cfg = append(c.Cfg, []string{"mode", mode}, []string{"arity", strconv.Itoa(arity)})
 	pool := c04TuplePool(rng, arity, 3+rng.Intn(3))
 	c.Stat = append(c.Stat, "mode-"+mode, fmt.Sprintf("arity-%d", arity))
@@ -182,7 +182,7 @@ func (c04) Gen(rng *rand.Rand, tier string, idx int) Case {
 		}
 	default:
 		n := 1
-		if mode != "agg" {
+		if mode == "cnt" || mode == "glb" {
 			n = []int{1, 2, 2, 3}[rng.Intn(4)]
 			c.Cfg = append(c.Cfg, []string{"n", strconv.Itoa(n)}, []string{"alias", strconv.Itoa(rng.Intn(2))})
 		}
@@ -389,6 +389,43 @@ func c04SQL(mode string, arity, n int, alias bool, rows [][]string) [][]string {
 	}
 }
 
+// c04Session drives a real SessionWindow without its goroutine: Add every row (one session per encoded key, the
+// one-hour gap never expires), Trigger() hands out one batch per session; every batch goes through a fresh
+// GroupAggregator as stream.processWindowBatch does.
+func c04Session(arity int, rows [][]string) [][]string {
+	gf := c04GroupFields(arity)
+	sw, err := window.NewSessionWindow(types.WindowConfig{Params: []interface{}{"1h"}, GroupByKeys: gf})
+	if err != nil {
+		return [][]string{{"ctor-error", hx(err.Error())}}
+	}
+	defer sw.Stop()
+	for _, t := range rows {
+		id, _ := strconv.Atoi(t[0])
+		sw.Add(c04Row(id, t[1:]))
+	}
+	sw.Trigger()
+	var ls [][]string
+	for {
+		select {
+		case batch := <-sw.OutputChan():
+			ga := aggregator.NewGroupAggregator(gf, []aggregator.AggregationField{
+				{InputField: "*", AggregateType: aggregator.Count, OutputAlias: "c"},
+				{InputField: "id", AggregateType: aggregator.Collect, OutputAlias: "ids"}})
+			for _, r := range batch {
+				if err := ga.Add(r.Data); err != nil {
+					ls = append(ls, []string{"add-error", hx(err.Error())})
+				}
+			}
+			res, _ := ga.GetResults()
+			for _, r := range res {
+				ls = append(ls, c04ResultLine(r, gf))
+			}
+		default:
+			return c04SortLines(ls)
+		}
+	}
+}
+
 func (c04) Exec(c Case) [][][]string {
 	mode := c04CfgVal(c, "mode", "enc")
 	arity, _ := strconv.Atoi(c04CfgVal(c, "arity", "0"))
@@ -426,6 +463,8 @@ func (c04) Exec(c Case) [][][]string {
 					ls = append(ls, c04ResultLine(r, gf))
 				}
 				out = append(out, c04SortLines(ls))
+			case "ses":
+				out = append(out, c04Session(arity, rows))
 			default:
 				out = append(out, c04SQL(mode, arity, n, alias, rows))
 			}
